@@ -1180,3 +1180,309 @@ func closureOnlyOnErrorPaths(c *Ctx, parent, g *ssa.Function) string {
 	}
 	return bad
 }
+
+func init() {
+	register(&Rule{
+		ID: "DUR-8",
+		Doc: "Nothing fails after the commit point: once a round has published its footer (a store of a non-nil value to Store.footer on a shared Store; for compactMaybe, the nil-error edge of " +
+			"its compact call) every return reachable from there reports success (a nil error). The persister treats an error as 'the round did not happen' and hands the same stack down " +
+			"again; after a commit that replays the round - Set and Del are idempotent, every Merge operand is applied twice.",
+		Props: []string{"C08", "C06", "C13"},
+		Floor: 3,
+		Run:   ruleDur8,
+	})
+	register(&Rule{
+		ID: "SORT-3",
+		Doc: "ensureSorted waits for what it asked for: the loop that calls RequestSort(true) (wait) runs over the same index space as the loop that calls RequestSort(false) (ask) - same start " +
+			"value, same comparison operator, same bound. A waiting loop that stops one short lets a reader binary-search the bottom segment while the merger is still sorting it in place.",
+		Props: []string{"C02", "C01", "C17"},
+		Floor: 1,
+		Run:   ruleSort3,
+	})
+	register(&Rule{
+		ID: "REF-14",
+		Doc: "API arguments are borrowed: an exported method, or a private function reachable only from one, does not release (Close/DecRef/decRef) an object that is (a type assertion of) one of its " +
+			"non-receiver parameters unless it acquired it in the same function (segmentLocs()/AddRef + deferred DecRef). SnapshotPrevious(ss) must leave ss as it found it: an unpaired " +
+			"DecRef takes one reference from the caller's snapshot per call, and the snapshot dies under its holder at the next persistence round.",
+		Props: []string{"C02", "C15", "C12"},
+		Floor: 1,
+		Run:   ruleRef14,
+	})
+}
+
+func ruleDur8(c *Ctx) []*Ob {
+	o := newObs(c, "DUR-8")
+	fFooter := c.Field("Store", "footer")
+	check := func(f *ssa.Function, from point, what string, pos string, skipNonNil *ssa.Call) {
+		bad := ""
+		// with a defer in the function the results are spilled into cells: the verdict is taken where the error cell is written
+		errCells := map[ssa.Value]bool{}
+		eachInstr(f, func(i ssa.Instruction) {
+			if r, ok := i.(*ssa.Return); ok && len(r.Results) > 0 {
+				if ld, isLd := r.Results[len(r.Results)-1].(*ssa.UnOp); isLd && ld.Op == token.MUL {
+					if a, isA := ld.X.(*ssa.Alloc); isA {
+						errCells[a] = true
+					}
+				}
+			}
+		})
+		opts := walkOpts{noInline: true, visit: func(i ssa.Instruction, t *tracker) bool {
+			if bad != "" {
+				return true
+			}
+			if st, ok := i.(*ssa.Store); ok && errCells[st.Addr] && !isNilConst(st.Val) {
+				bad = c.instrPos(i)
+				return true
+			}
+			if r, ok := i.(*ssa.Return); ok {
+				res := f.Signature.Results()
+				if res.Len() > 0 && isErrorType(res.At(res.Len()-1).Type()) && len(r.Results) == res.Len() {
+					last := r.Results[res.Len()-1]
+					spilled := false
+					if ld, isLd := last.(*ssa.UnOp); isLd && ld.Op == token.MUL && errCells[ld.X] {
+						spilled = true
+					}
+					if !spilled && !isNilConst(last) {
+						bad = c.instrPos(i)
+					}
+				}
+				return true
+			}
+			return false
+		}}
+		if skipNonNil != nil {
+			opts.origin, opts.originIdx = skipNonNil, errResultIndex(skipNonNil.Call.Signature())
+			if skipNonNil.Call.Signature().Results().Len() == 1 {
+				opts.seed = []ssa.Value{skipNonNil}
+			}
+			opts.edge = func(from, to *ssa.BasicBlock, label string, cond ssa.Value, onTrue bool, _ *tracker) bool {
+				return bad != "" || label == "nonnil"
+			}
+		}
+		walk(from, opts)
+		why := "every return after the commit point reports success"
+		if bad != "" {
+			why = "after the commit point a return at " + bad + " can report an error: the caller (the persister) believes the round failed and persists the same stack again on top of the committed one - merge operands are applied twice"
+		}
+		o.add(c.fname(f), what, pos, bad == "", why)
+	}
+	for _, f := range c.Funcs {
+		if c.isHarness(f) {
+			continue
+		}
+		res := f.Signature.Results()
+		if res.Len() == 0 || !isErrorType(res.At(res.Len()-1).Type()) {
+			continue
+		}
+		for _, a := range fieldAccesses(f, func(v *types.Var) bool { return v == fFooter }) {
+			if a.Kind != "store" || isNilConst(a.Val) || isFreshAlloc(a.Base) {
+				continue
+			}
+			check(f, after(a.Instr), "after publishing Store.footer", c.instrPos(a.Instr), nil)
+		}
+	}
+	cm := c.Fn("(*Store).compactMaybe")
+	for _, k := range callsToFn(cm, c.Fn("(*Store).compact")) {
+		check(cm, after(k), "after a successful compact", c.instrPos(k), k)
+	}
+	return o.list
+}
+
+func ruleSort3(c *Ctx) []*Ob {
+	o := newObs(c, "SORT-3")
+	f := c.Fn("(*segmentStack).ensureSorted")
+	fn := c.fname(f)
+	type loopInfo struct {
+		op          token.Token
+		init, bound ssa.Value
+		pos         string
+		ok          bool
+	}
+	info := map[bool]*loopInfo{}
+	eachInstr(f, func(i ssa.Instruction) {
+		call, ok := i.(*ssa.Call)
+		if !ok || !call.Call.IsInvoke() || call.Call.Method.Name() != "RequestSort" || len(call.Call.Args) != 1 {
+			return
+		}
+		wait, isK := constBool(call.Call.Args[0])
+		if !isK {
+			return
+		}
+		scc := sccOf(f, call.Block())
+		li := &loopInfo{pos: c.instrPos(i)}
+		info[wait] = li
+		if scc == nil {
+			return
+		}
+		// the loop's exit test: an If in the loop with one successor outside, comparing a phi with a bound
+		for b := range scc {
+			iff, isIf := b.Instrs[len(b.Instrs)-1].(*ssa.If)
+			if !isIf || (scc[b.Succs[0]] && scc[b.Succs[1]]) {
+				continue
+			}
+			bo, isB := iff.Cond.(*ssa.BinOp)
+			if !isB {
+				continue
+			}
+			ph, isPhi := bo.X.(*ssa.Phi)
+			if !isPhi || len(ph.Edges) != 2 {
+				continue
+			}
+			for k, e := range ph.Edges {
+				if !scc[ph.Block().Preds[k]] {
+					li.init = e
+				}
+			}
+			li.op, li.bound, li.ok = bo.Op, bo.Y, true
+		}
+	})
+	ask, wait := info[false], info[true]
+	if ask == nil || wait == nil || !ask.ok || !wait.ok {
+		o.add(fn, "ask loop / wait loop", c.pos(f.Pos()), false, "undecided: the two RequestSort loops (ask with false, wait with true) were not both recognised")
+		return o.list
+	}
+	same := ask.op == wait.op && sameValue(ask.init, wait.init) && sameValue(ask.bound, wait.bound)
+	why := "the waiting loop covers exactly the segments the asking loop covered"
+	if !same {
+		why = "the waiting loop (" + wait.pos + ") does not run over the same indices as the asking loop (" + ask.pos + "): " + wait.op.String() + " vs " + ask.op.String() +
+			" - a segment whose sort was requested is not waited for, and the reader searches it while it is being sorted in place"
+	}
+	o.add(fn, "wait loop covers the ask loop", wait.pos, same, why)
+	return o.list
+}
+
+func ruleRef14(c *Ctx) []*Ob {
+	o := newObs(c, "REF-14")
+	n := 0
+	for _, f := range c.Funcs {
+		if c.isHarness(f) || f.Parent() != nil {
+			continue
+		}
+		exported := isExportedRoot(f)
+		if !exported {
+			// a private helper reachable only from exported API roots
+			sites := c.Callers(f)
+			if len(sites) == 0 {
+				continue
+			}
+			all := true
+			for _, s := range sites {
+				if _, isGo := s.Instr.(*ssa.Go); isGo || !isExportedRoot(s.Caller) {
+					all = false
+				}
+			}
+			if !all {
+				continue
+			}
+		}
+		fn := c.fname(f)
+		evs := refEvents(c, f)
+		acquired := map[string]bool{}
+		for _, e := range evs {
+			if e.kind == "acq" {
+				acquired[canonKey(e.tok)] = true
+			}
+		}
+		for _, e := range evs {
+			if e.kind != "rel" && e.kind != "defer-rel" {
+				continue
+			}
+			if acquired[canonKey(e.tok)] {
+				continue
+			}
+			var param *ssa.Parameter
+			for _, w := range origins(e.tok) {
+				if p, ok := w.(*ssa.Parameter); ok && p.Parent() == f {
+					isRecv := f.Signature.Recv() != nil && len(f.Params) > 0 && f.Params[0] == p
+					if !isRecv {
+						param = p
+					}
+				}
+				if ta, ok := w.(*ssa.TypeAssert); ok {
+					if p, isP := ta.X.(*ssa.Parameter); isP && p.Parent() == f {
+						param = p
+					}
+				}
+			}
+			if param == nil {
+				// extract of a comma-ok type assertion
+				for _, og := range origins(e.tok) {
+					if ex, isE := og.(*ssa.Extract); isE {
+						if ta, isTA := ex.Tuple.(*ssa.TypeAssert); isTA {
+							if p, isP := ta.X.(*ssa.Parameter); isP && p.Parent() == f {
+								param = p
+							}
+						}
+					}
+				}
+			}
+			if param == nil {
+				continue
+			}
+			n++
+			o.add(fn, "release of argument "+param.Name(), c.instrPos(e.instr), false,
+				"the function releases the object its caller passed as "+param.Name()+" without having acquired it here: every call takes one reference away from the caller's handle, which then dies under its holder (Get returns nil, iteration is empty) as soon as the store replaces its footer")
+		}
+	}
+	if n == 0 {
+		o.add("-", "no API function releases an argument it did not acquire", "-", true, "every release of (an assertion of) a parameter in an API function is paired with an acquisition in that function")
+	}
+	return o.list
+}
+
+func init() {
+	register(&Rule{
+		ID: "DUR-9",
+		Doc: "A child sizes the file after its parent has landed: in Store.writeSegments every recursive call (a child collection's segments) is preceded on every path by Stop of both of the " +
+			"function's section writers. Each level takes its start offsets from the file's current size; while the parent's asynchronous writes are still in flight a child computes the " +
+			"same offsets and overwrites the parent's sections.",
+		Props: []string{"C11", "C07"},
+		Floor: 1,
+		Run:   ruleDur9,
+	})
+}
+
+func ruleDur9(c *Ctx) []*Ob {
+	o := newObs(c, "DUR-9")
+	f := c.Fn("(*Store).writeSegments")
+	fn := c.fname(f)
+	stop := c.Fn("(*bufferedSectionWriter).Stop")
+	stops := callsToFn(f, stop)
+	// distinct writers: by the receiver's origin
+	writers := map[string][]*ssa.Call{}
+	for _, k := range stops {
+		key := ""
+		for _, og := range origins(k.Call.Args[0]) {
+			key += canonKey(og) + ";"
+		}
+		writers[key] = append(writers[key], k)
+	}
+	n := 0
+	for _, k := range callsToFn(f, f) {
+		n++
+		missing := ""
+		for wk, ks := range writers {
+			isStop := func(i ssa.Instruction) bool {
+				for _, s := range ks {
+					if i == ssa.Instruction(s) {
+						return true
+					}
+				}
+				return false
+			}
+			if !mustPrecede(f, k, isStop, nil) {
+				missing = wk
+			}
+		}
+		ok := missing == "" && len(writers) >= 2
+		why := "both section writers are stopped (their writes have landed) before a child collection is written"
+		if !ok {
+			why = "a child collection's writeSegments can start while a section writer of this level has not been stopped: the child sizes the file before the parent's asynchronous writes have landed and overwrites the parent's sections"
+		}
+		o.add(fn, "recursive call after Stop of both writers", c.instrPos(k), ok, why)
+	}
+	if n == 0 {
+		o.add(fn, "recursive call", c.pos(f.Pos()), false, "anchor lost: writeSegments no longer recurses (INC-3 reports it)")
+	}
+	return o.list
+}
